@@ -3,20 +3,21 @@ import GarbleVerif.Model.SrcSem
 /-!
 # L7 — what the compiled circuit computes, at the level of bit lists (core fragment)
 
-`bitExpr` follows `compile.rs` (`TypedExpr::compile`) on the core fragment of the language —
-Booleans and integers of every width, literals, variables, `!`, unary `-`, `+`, `-`, `<`, `>`,
-`<=`, `>=`, `==`, `!=`, `&`, `|`, `^` on Booleans, `&&`, `||`, casts between all of these types,
-`if`/`else`, blocks with immutable `let` — but
-instead of emitting gates it computes the value every wire would carry for given inputs:
-operands become big-endian bit lists, operators are the bit-list functions of `Model/Arith.lean`
-(the same functions that C03 ties to `CircuitBuilder`), and the panic record is its abstract
-state "reason of the first failing operation, if any" (C02): every expression reports the first
-panic raised inside it, and code that runs one after the other combines them with `seqP` (the
-first wins) — the abstract behaviour that C02 proves for `push_panic_if` / `mux_panic`. Anything
-outside the fragment is `none`.
+`bitExpr` / `bitStmts` / `bitStmt` follow `compile.rs` (`TypedExpr::compile`, `TypedStmt::compile`) on the
+core fragment of the language — Booleans and integers of every width, literals, variables, `!`, unary
+`-`, `+`, `-`, `<`, `>`, `<=`, `>=`, `==`, `!=`, `&`, `|`, `^` on Booleans, `&&`, `||`, casts between all of
+these types, `if`/`else` (as expression and as statement), blocks, `()`, `let`, `let mut` and assignment
+to a variable — but instead of emitting gates they compute the value every wire would carry for given
+inputs: operands become big-endian bit lists, operators are the bit-list functions of
+`Model/Arith.lean` (the same functions that C03 ties to `CircuitBuilder`), the panic record is its
+abstract state "reason of the first failing operation, if any" (C02): every expression reports the
+first panic raised inside it, and code that runs one after the other combines them with `seqP` (the
+first wins) — the abstract behaviour that C02 proves for `push_panic_if` / `mux_panic` — and the
+compiler's `Env` is the list of the variables in scope, innermost first, with the bits on their wires.
+Anything outside the fragment is `none`.
 
-`compile.rs` evaluates both branches of an `if` and both operands of `&&` / `||` and selects
-afterwards; so does `bitExpr`.
+`compile.rs` compiles both branches of an `if` and both operands of `&&` / `||` and selects
+afterwards — the value, the panic record, and every variable in scope (`mux_envs`); so does `bitExpr`.
 -/
 namespace GV
 namespace Bit
@@ -92,42 +93,66 @@ def binBits (op : Src.BinOp) (t : STy) (x y : List Bool) : Option (STy × List B
   | .bxor, .bool => let r := Arith.binop .bitXor false false false x y; some (.bool, r.1, r.2)
   | _, _ => none
 
+/-- the type of a value of the fragment: a scalar, or `()` (the value of an assignment, of a block that
+ends in a statement, of an `if` used as a statement) -/
+inductive VTy where
+  | s (t : STy)
+  | unit
+deriving DecidableEq, Repr, Inhabited
+
+/-- `assign_mut`: replaces the bits of the innermost binding of `x` -/
+def BEnv.set : BEnv → String → List Bool → BEnv
+  | [], _, _ => []
+  | (n, t, bs) :: r, x, w => if n == x then (n, t, w) :: r else (n, t, bs) :: BEnv.set r x w
+
+/-- `mux_envs`: every variable in scope gets the bits of the first environment if `c`, of the second
+otherwise (variable by variable; both environments come from the same scope stack) -/
+def muxEnv (c : Bool) : BEnv → BEnv → BEnv
+  | (n, t, x) :: a, (_, _, y) :: b => (n, t, if c then x else y) :: muxEnv c a b
+  | _, _ => []
+
+/-- leaving a block: the bindings made inside are dropped -/
+def restoreB (outer inner : BEnv) : BEnv := inner.drop (inner.length - outer.length)
+
 mutual
-/-- type, bits and panic (the first one raised inside `e`, if any) of an expression -/
-def bitExpr (benv : BEnv) : Expr → Option (STy × List Bool × P)
-  | .bool b => some (.bool, [b], none)
-  | .int n k => if k.inRange n then some (.int k, intToBits n k.bits, none) else none
+/-- type, bits, panic (the first one raised inside `e`, if any) and variables after an expression -/
+def bitExpr (benv : BEnv) : Expr → Option (VTy × List Bool × P × BEnv)
+  | .bool b => some (.s .bool, [b], none, benv)
+  | .int n k => if k.inRange n then some (.s (.int k), intToBits n k.bits, none, benv) else none
   | .var x =>
     match benv.get? x with
-    | some (t, bs) => some (t, bs, none)
+    | some (t, bs) => some (.s t, bs, none, benv)
     | none => none
   | .un .not .bool a =>
     match bitExpr benv a with
-    | some (.bool, [b], p1) => some (.bool, [!b], p1)
+    | some (.s .bool, [b], p1, env1) => some (.s .bool, [!b], p1, env1)
     | _ => none
   | .un .neg (.int k) a =>
     if k.signed then
       match bitExpr benv a with
-      | some (.int k', bs, p1) =>
+      | some (.s (.int k'), bs, p1, env1) =>
         if k' = k then
           let r := Arith.negChecked bs
-          some (.int k, r.1, seqP p1 (if r.2 then some .overflow else none))
+          some (.s (.int k), r.1, seqP p1 (if r.2 then some .overflow else none), env1)
         else none
       | _ => none
     else none
-  /- `mux_panic(x, panic after y, panic before y)`: the panics of `y` count only if it runs -/
+  /- `mux_panic(x, panic after y, panic before y)`, `mux_envs(x, env after y, env before y)`: the panics
+  and the assignments of `y` count only if it runs -/
   | .bin .land _ a b =>
     match bitExpr benv a with
-    | some (.bool, [x], p1) =>
-      match bitExpr benv b with
-      | some (.bool, [y], p2) => some (.bool, [x && y], seqP p1 (if x then p2 else none))
+    | some (.s .bool, [x], p1, env1) =>
+      match bitExpr env1 b with
+      | some (.s .bool, [y], p2, env2) =>
+        some (.s .bool, [x && y], seqP p1 (if x then p2 else none), muxEnv x env2 env1)
       | _ => none
     | _ => none
   | .bin .lor _ a b =>
     match bitExpr benv a with
-    | some (.bool, [x], p1) =>
-      match bitExpr benv b with
-      | some (.bool, [y], p2) => some (.bool, [x || y], seqP p1 (if x then none else p2))
+    | some (.s .bool, [x], p1, env1) =>
+      match bitExpr env1 b with
+      | some (.s .bool, [y], p2, env2) =>
+        some (.s .bool, [x || y], seqP p1 (if x then none else p2), muxEnv x env1 env2)
       | _ => none
     | _ => none
   | .bin op ty a b =>
@@ -135,52 +160,73 @@ def bitExpr (benv : BEnv) : Expr → Option (STy × List Bool × P)
     | none => none
     | some t =>
       match bitExpr benv a with
-      | none => none
-      | some (ta, x, p1) =>
-        match bitExpr benv b with
-        | none => none
-        | some (tb, y, p2) =>
+      | some (.s ta, x, p1, env1) =>
+        match bitExpr env1 b with
+        | some (.s tb, y, p2, env2) =>
           if ta = t ∧ tb = t then
             match binBits op t x y with
-            | some (tr, r, panics) => some (tr, r, seqP p1 (seqP p2 (firstOf panics)))
+            | some (tr, r, panics) => some (.s tr, r, seqP p1 (seqP p2 (firstOf panics)), env2)
             | none => none
           else none
+        | _ => none
+      | _ => none
   /- `as`: same width, truncation, or extension by the sign / zero of the source type; never a panic -/
   | .cast src dst a =>
     match STy.ofTy src, STy.ofTy dst with
     | some ts, some td =>
       match bitExpr benv a with
-      | some (ta, x, p1) => if ta = ts then some (td, Arith.cast x ts.signed td.bits, p1) else none
-      | none => none
+      | some (.s ta, x, p1, env1) =>
+        if ta = ts then some (.s td, Arith.cast x ts.signed td.bits, p1, env1) else none
+      | _ => none
     | _, _ => none
-  /- both branches are compiled, bits and panic are selected by the condition afterwards -/
+  /- both branches are compiled from the environment the condition left; bits, panic and every
+  variable are selected by the condition afterwards -/
   | .ite c t f =>
     match bitExpr benv c with
-    | some (.bool, [cb], pc) =>
-      match bitExpr benv t, bitExpr benv f with
-      | some (tt, tb, pt), some (tf, fb, pf) =>
-        if tt = tf then some (tt, (if cb then tb else fb), seqP pc (if cb then pt else pf)) else none
+    | some (.s .bool, [cb], pc, env1) =>
+      match bitExpr env1 t, bitExpr env1 f with
+      | some (tt, tb, pt, envT), some (tf, fb, pf, envF) =>
+        if tt = tf then
+          some (tt, (if cb then tb else fb), seqP pc (if cb then pt else pf), muxEnv cb envT envF)
+        else none
       | _, _ => none
     | _ => none
-  | .block ss => bitStmts benv ss
+  | .block ss =>
+    match bitStmts benv ss with
+    | some (t, bs, p, env1) => some (t, bs, p, restoreB benv env1)
+    | none => none
+  /- `()` -/
+  | .tuple .nil => some (.unit, [], none, benv)
   | _ => none
-/-- `let x = e; …; e'` (a `let mut` without assignments is a `let`) -/
-def bitStmts (benv : BEnv) : StmtList → Option (STy × List Bool × P)
-  | .cons (.expr e) .nil => bitExpr benv e
-  | .cons (.let_ (.ident x) e) rest =>
-    match bitExpr benv e with
-    | some (t, bs, p1) =>
-      match bitStmts ((x, t, bs) :: benv) rest with
-      | some (t2, bs2, p2) => some (t2, bs2, seqP p1 p2)
+/-- the value of a statement list is that of its last statement -/
+def bitStmts (benv : BEnv) : StmtList → Option (VTy × List Bool × P × BEnv)
+  | .nil => some (.unit, [], none, benv)
+  | .cons s .nil => bitStmt benv s
+  | .cons s rest =>
+    match bitStmt benv s with
+    | some (_, _, p1, env1) =>
+      match bitStmts env1 rest with
+      | some (t2, bs2, p2, env2) => some (t2, bs2, seqP p1 p2, env2)
       | none => none
     | none => none
-  | .cons (.letMut x e) rest =>
+def bitStmt (benv : BEnv) : Stmt → Option (VTy × List Bool × P × BEnv)
+  | .let_ (.ident x) e =>
     match bitExpr benv e with
-    | some (t, bs, p1) =>
-      match bitStmts ((x, t, bs) :: benv) rest with
-      | some (t2, bs2, p2) => some (t2, bs2, seqP p1 p2)
+    | some (.s t, bs, p1, env1) => some (.unit, [], p1, (x, t, bs) :: env1)
+    | _ => none
+  | .letMut x e =>
+    match bitExpr benv e with
+    | some (.s t, bs, p1, env1) => some (.unit, [], p1, (x, t, bs) :: env1)
+    | _ => none
+  /- `x = e`: the value is compiled first, then the innermost binding of `x` is replaced -/
+  | .assign x .nil e =>
+    match bitExpr benv e with
+    | some (.s t, bs, p1, env1) =>
+      match env1.get? x with
+      | some (t', _) => if t' = t then some (.unit, [], p1, env1.set x bs) else none
       | none => none
-    | none => none
+    | _ => none
+  | .expr e => bitExpr benv e
   | _ => none
 end
 
